@@ -105,3 +105,42 @@ class _KF_C07_1:
                     op[4][f0] = spec
             # several qualified ones with one subject and no unqualified one do not trigger the defect
         return case if n else None
+
+
+# ---------------------------------------------------------------------------------------------------------
+# KF-C01-1: a bundle's identifier is a name in the *bundle's* scope for the library (add_bundle() resolves it there, PROV-XML
+# carries it on the element that holds the bundle's own declarations) but PROV-JSON writes it as a key of the document-level
+# "bundle" object.  When a stand-alone bundle that binds a prefix differently from the document is attached with add_bundle(),
+# two bundles of one document can print their (different) identifiers identically; the second then overwrites the first in the
+# PROV-JSON "bundle" object and a whole bundle is lost.
+# ---------------------------------------------------------------------------------------------------------
+def _kf_c01_colliding(case):
+    from pv import interp
+    doc = interp.run(case["ops"]).doc
+    seen = {}
+    for b in doc.bundles:
+        seen.setdefault(str(b.identifier), set()).add(b.identifier.uri)
+    return {k for k, v in seen.items() if len(v) > 1}
+
+
+@finding("KF-C01-1", ["C01", "C10"])
+class _KF_C01_1:
+    @staticmethod
+    def trigger(case):
+        if not any(op[0] == "attach" for op in case.get("ops", [])):
+            return False
+        return bool(_kf_c01_colliding(case))
+
+    @staticmethod
+    def neutralise(case):
+        # give every bundle a distinct local name, so that equal prefixes can no longer make two identifiers print alike
+        n = 0
+        for op in case["ops"]:
+            if op[0] in ("bundle", "sbundle", "attach") and isinstance(op[2], dict):
+                n += 1
+                spec = op[2]
+                if "local" in spec:
+                    spec["local"] = "%s_kf%d" % (spec["local"], n)
+                elif "s" in spec:
+                    spec["s"] = "%s_kf%d" % (spec["s"], n)
+        return case if n else None
